@@ -21,7 +21,19 @@ class CodecMonitor(Monitor):
         world.net.taps.append(self.on_wire_raw)
 
     def pre_build(self, conn):
-        return [len(m.payload) for m in conn.outgoing_messages]
+        return set(int(k) for k in conn.pending_retry_msg)
+
+    def after_build(self, conn, pkt, pre=None):
+        # a message waiting to be resent either stays in the resend table or leaves in this very packet
+        if not pre:
+            return
+        now = set(int(k) for k in conn.pending_retry_msg)
+        sent = set(int(m.seq) for m in pkt.msgs) if pkt is not None else set()
+        lost = pre - now - sent
+        if lost:
+            self.w.violation("retry_message_dropped_from_resend_table_without_being_sent",
+                             {"conn": self.w.conn_name(conn), "msgseqs": sorted(lost)[:5], "packet_built": pkt is not None,
+                              "packed": len(sent)}, key="")
 
     def on_build(self, conn, pkt, pre=None):
         w = self.w
